@@ -6,6 +6,7 @@
 #include <cds/gc/dhp.h>
 #include <cds/urcu/general_instant.h>
 #include <cds/urcu/general_buffered.h>
+#include <cds/intrusive/skip_list_hp.h>
 #include <cds/container/skip_list_set_hp.h>
 #include <cds/container/skip_list_set_dhp.h>
 #include <cds/container/skip_list_set_rcu.h>
@@ -405,6 +406,100 @@ template <> struct skip_traits<true> : cc::skip_list::traits {
     typedef hint_memory_model memory_model;
 };
 
+// Tie A (atomic-trace conformance with the Lean machine lean/CdsVerif/Algo/SkipList/Model.lean): intrusive
+// SkipListSet<HP> whose words are all named:
+//   h.<l>      level-l next word of the head tower (l = 0 .. 7)
+//   n<j>.<l>   level-l next word of the item brought by the j-th INVOKED insert; n<j>.u its m_nUnlink counter
+//   hgt        m_nHeight
+// Tower heights are fixed by the harness (geometric, 1 .. c_max, from the case index and the insert's number) and
+// told to the machine by the header word `hts=h1.h2.…` (heights of the first 16 inserts).  The towers live inside the
+// items (a node builder that neither allocates nor frees), so no tower word is ever reused during a case.
+// Only insert / erase / find / contains.
+struct sk_item : ci::skip_list::node<cds::gc::HP> {
+    long key; long val;
+    ci::skip_list::node<cds::gc::HP>::atomic_marked_ptr tower[8];
+};
+struct sk_zero_gen {
+    static unsigned int const c_nUpperBound = 3;     // c_nMaxHeight
+    unsigned int operator()() { return 0; }
+};
+struct sk_builder {
+    typedef ci::skip_list::node<cds::gc::HP> node_type;
+    template <class Gen> static node_type* make_tower( node_type* p, Gen& ) { return p; }
+    struct node_disposer { void operator()( node_type* ) const {} };
+};
+struct sk_traits : ci::skip_list::traits {
+    typedef ci::skip_list::base_hook< cds::opt::gc<cds::gc::HP> > hook;
+    typedef key_less less;
+    typedef noop_disposer disposer;
+    typedef sk_zero_gen random_level_generator;
+    typedef sk_builder internal_node_builder;
+    typedef hint_memory_model memory_model;
+};
+struct IntrSkipNamed : IMap {
+    typedef ci::SkipListSet< cds::gc::HP, sk_item, sk_traits > set_t;
+    std::unique_ptr<set_t> s;
+    std::vector<std::unique_ptr<sk_item>> items;
+    size_t named = 0;
+    uint64_t hseed;
+    static unsigned height_of( uint64_t seed, size_t j )
+    {
+        uint64_t x = ( seed * 6364136223846793005ull + j * 1442695040888963407ull + 1013904223ull );
+        x ^= x >> 29; x *= 0xbf58476d1ce4e5b9ull; x ^= x >> 32;
+        unsigned h = 1;
+        while (( x & 1 ) && h < sk_zero_gen::c_nUpperBound ) { ++h; x >>= 1; }
+        return h;
+    }
+    explicit IntrSkipNamed( uint64_t seed ) : s( new set_t ), hseed( seed )
+    {
+        can_update = false; can_extract = false; can_minmax = false;
+        char nm[32];
+        reg_name( &s->m_Head.m_pNext, sizeof( s->m_Head.m_pNext ), "h.0" );
+        for ( unsigned l = 1; l < 8; ++l ) {
+            std::snprintf( nm, sizeof nm, "h.%u", l );
+            reg_name( &s->m_Head.m_Tower[l - 1], sizeof( s->m_Head.m_Tower[0] ), nm );
+        }
+        reg_name( &s->m_nHeight, sizeof( s->m_nHeight ), "hgt" );
+    }
+    ~IntrSkipNamed()
+    {
+        s.reset();
+        cds::gc::HP::force_dispose();
+    }
+    std::string heights() const
+    {
+        std::string r = "hts=";
+        for ( size_t j = 1; j <= 16; ++j ) { if ( j > 1 ) r += '.'; r += std::to_string( height_of( hseed, j )); }
+        return r;
+    }
+    bool insert( long k, long v ) override
+    {
+        set_quiet( true );
+        sk_item* p = new sk_item;
+        size_t j = ++named;
+        unsigned h = height_of( hseed, j );
+        for ( unsigned l = 0; l < 8; ++l ) p->tower[l].store( sk_item::marked_ptr());
+        if ( h > 1 ) p->make_tower( h, p->tower );
+        set_quiet( false );
+        p->key = k; p->val = v;
+        items.emplace_back( p );
+        char nm[32];
+        std::snprintf( nm, sizeof nm, "n%zu.0", j );
+        reg_name( &p->m_pNext, sizeof( p->m_pNext ), nm );
+        for ( unsigned l = 1; l < 8; ++l ) {
+            std::snprintf( nm, sizeof nm, "n%zu.%u", j, l );
+            reg_name( &p->tower[l - 1], sizeof( p->tower[0] ), nm );
+        }
+        std::snprintf( nm, sizeof nm, "n%zu.u", j );
+        reg_name( &p->m_nUnlink, sizeof( p->m_nUnlink ), nm );
+        return s->insert( *p );
+    }
+    std::pair<bool, bool> update( long, long, bool ) override { return std::make_pair( false, false ); }
+    bool erase( long k, long& v ) override { return s->erase( k, [&v]( sk_item const& item ) { v = item.val; } ); }
+    bool find( long k, long& v ) override { return s->find( k, [&v]( sk_item& item, long& ) { v = item.val; } ); }
+    bool contains( long k ) override { return s->contains( k ); }
+};
+
 // ---------------------------------------------------------------- Ellen's binary tree
 
 // search() (used by every operation, find() included) restarts from the root, without back-off, as long
@@ -611,6 +706,8 @@ struct Fixture {
     std::string failure;
     std::function<void()> after;      // run after the container has been destroyed
     GenCfg gen;
+    std::string hx;                      // extra words for the case header (configuration the Lean machine needs)
+    std::string header_extra() const { return hx; }
 
     explicit Fixture( Case const& c )
     {
@@ -657,6 +754,14 @@ struct Fixture {
         else if ( v == "bronson_gpi_relaxed" ) { m.reset( new BronsonMap<cc::BronsonAVLTreeMap<rcu_gpi, long, long, bronson_traits<false, true>>> ); gpi(); }
         else if ( v == "bronson_ptr_gpi" ) m.reset( new BronsonPtrMap<rcu_gpi, cc::BronsonAVLTreeMap<rcu_gpi, long, long*, bronson_ptr_traits<false>>> );
         else if ( v == "bronson_ptr_gpb_pool" ) m.reset( new BronsonPtrMap<rcu_gpb, cc::BronsonAVLTreeMap<rcu_gpb, long, long*, bronson_ptr_traits<true>>> );
+        // tie A variant, not chosen at random (use --variant): see IntrSkipNamed; --keys N narrows the key space
+        else if ( v == "iskipset_hp_named" ) {
+            IntrSkipNamed* p = new IntrSkipNamed( c.seed * 1000003ull + c.index );
+            m.reset( p );
+            hx = p->heights();
+            if ( c.optl( "fastmark", 1 ) == 0 ) hx += " fastmark=0";    // trace of a tree WITHOUT the fast-path mark test (before b95a3c3)
+            if ( c.optl( "keys", 0 ) > 1 ) gen.maxkeys = int( c.optl( "keys", 0 ));
+        }
         else { std::fprintf( stderr, "unknown variant %s\n", v.c_str()); std::exit( 2 ); }
         if ( v.compare( 0, 9, "ellenmap_" ) == 0 && v != "ellenmap_hp_updfn" )
             m->upd_zero = true;
